@@ -224,7 +224,7 @@ class FrameMixin:
         if isinstance(recv, (SArr,)) and short in ("fill", "sort", "put", "itemset", "resize"):
             raise Unsupported("frame mode: in-place method %s on a shared array (line %d)" % (short, n.lineno))
         callee = self.static_callee(n, st) if not isinstance(n.func, ast.Attribute) else None
-        cc = (self.db.contracts.get(callee) or self.db.assumed.get(callee)) if callee else None
+        cc = self.db.callee_contract(callee) if callee else None
         if cc is not None and cc.assigns:
             # the callee's contract says which arguments it writes
             for pname in cc.assigns:
